@@ -502,6 +502,15 @@ def run(prop, tier):
         verdicts = {t[1]: dict(zip(OBS_NAMES, t[2])) for t in tlc.printed_tuples(r.stdout, "OBS")}
         if len(verdicts) != len(records):
             raise RuntimeError("observer evaluated %d of %d runs\n%s" % (len(verdicts), len(records), r.stdout[-2000:]))
+    # supplementary (no VIOLATION line comes from it): the conversation of the two ends at the level of their machines,
+    # DilationL2M.tla over the extracted _Framer / _Record / DilatedConnectionProtocol tables, walks validated by TLC
+    try:
+        from . import dil_l2m
+        with common.Workdir(prop + "m") as wd2:
+            ti = wd2.gen_tables()
+            cov["supplementary"] = {"l2_machines": dil_l2m.run_family(wd2, quick, seed), "tables": ti}
+    except Exception as e:
+        cov["supplementary"] = {"l2_machines": {"error": repr(e)[:300]}}
     failing = 0
     distinct = set()
     for rec in records:
